@@ -9,6 +9,7 @@ mod serde_ctx;
 mod model;
 mod panics;
 mod tagjson;
+mod total;
 mod types;
 
 use gen::*;
@@ -121,7 +122,7 @@ fn gen_lang(a: &HashMap<String, String>) {
         for &ci in &by_scheme[si] {
             collect_hints(&ctxs[ci - 1], &mut hints);
         }
-        let value_mode = family != "c01" && family != "c13" && family != "c07" && family != "c11" && r.random_range(0..6) == 0;
+        let value_mode = family != "c01" && family != "c13" && family != "c07" && family != "c11" && family != "soup" && r.random_range(0..6) == 0;
         let mut g = FilterGen {
             r: &mut r,
             spec,
@@ -137,7 +138,41 @@ fn gen_lang(a: &HashMap<String, String>) {
         };
         let mut max: u16 = 128;
         let mut star: i64 = -1;
-        let mut ts = if family == "c11" {
+        let mut ts = if family == "soup" {
+            // token soup over the language's alphabet: the specification's parser decides the verdict
+            let n = g.r.random_range(1..13);
+            let mut t = Vec::new();
+            for _ in 0..n {
+                let x = g.r.random_range(0..24);
+                t.push(match x {
+                    0 => Tok::Lp,
+                    1 => Tok::Rp,
+                    2 => Tok::Not { a: 0 },
+                    3 => Tok::Lop { v: "and".into(), a: 0 },
+                    4 => Tok::Lop { v: "or".into(), a: 0 },
+                    5 => Tok::Quant { v: "any".into() },
+                    6 => Tok::Quant { v: "all".into() },
+                    7 => Tok::Id { name: "b1".into() },
+                    8 => Tok::Id { name: "vb".into() },
+                    9 => Tok::Id { name: "i".into() },
+                    10 => Tok::Id { name: "ai".into() },
+                    11 => Tok::Ord { v: "eq".into(), a: 1 },
+                    12 => Tok::Int { v: limbs(-7), txt: "-7".into() },
+                    13 => Tok::Lb,
+                    14 => Tok::Star,
+                    15 => Tok::Rb,
+                    16 => Tok::Comma,
+                    17 => Tok::Id { name: "bb".into() },
+                    18 => Tok::Id { name: "s".into() },
+                    19 => Tok::Bytes { v: b"ab".to_vec(), form: "q".into(), txt: "\"ab\"".into() },
+                    20 => Tok::In,
+                    21 => Tok::Lbr,
+                    22 => Tok::Rbr,
+                    _ => Tok::Id { name: "vvb".into() },
+                });
+            }
+            t
+        } else if family == "c11" {
             // one pattern comparison, on a field, an index path or every element
             let lhs: Vec<Tok> = match g.r.random_range(0..5) {
                 0 => vec![Tok::Id { name: "t.u".into() }],
@@ -528,6 +563,27 @@ fn reobserve(a: &HashMap<String, String>) -> i32 {
                 let o = types::reobserve_scheme(&e);
                 e["de"] = o["de"].clone();
                 e["built"] = o["built"].clone();
+            }
+            "total" | "total-big" => {
+                let text = if kind == "total" {
+                    let b: Vec<u8> = serde_json::from_value(e["input"].clone()).unwrap();
+                    String::from_utf8_lossy(&b).to_string()
+                } else {
+                    let class = e["class"].as_str().unwrap().to_string();
+                    total::stress_inputs(100000).into_iter().find(|(c, _)| *c == class).map(|(_, t)| t).unwrap_or_default()
+                };
+                let mut wk = total::Worker::spawn();
+                let obs = match wk.ask(&text, e["value"] == true, e["thread2m"] == true) {
+                    Some(o) => o,
+                    None => json!({"out": format!("crash-{}", wk.exit_status())}),
+                };
+                if kind == "total-big" {
+                    let line = obs.get("line").and_then(|l| l.as_i64()).unwrap_or(-1);
+                    let nl = text.matches('\n').count();
+                    e["actual_line"] = json!(if line >= 0 { text.split('\n').nth(line as usize).map(|s| s.as_bytes().to_vec()).unwrap_or_default() } else { vec![] });
+                    e["line_exists"] = json!(line >= 0 && (line as usize) <= nl);
+                }
+                e["obs"] = obs;
             }
             "contains" => {
                 let hay: Vec<u8> = serde_json::from_value(e["hay"].clone()).unwrap();
@@ -982,6 +1038,57 @@ fn gen_serde(a: &HashMap<String, String>) {
     println!("{}", serde_json::to_string(&json!({"events": nev})).unwrap());
 }
 
+/// impl -> spec for C05: every input is parsed in a child process
+fn gen_total(a: &HashMap<String, String>) {
+    let seed: u64 = a.get("seed").and_then(|s| s.parse().ok()).unwrap_or(1);
+    let n: usize = a.get("n").and_then(|s| s.parse().ok()).unwrap_or(1000);
+    let big: usize = a.get("big").and_then(|s| s.parse().ok()).unwrap_or(100000);
+    let out = a.get("out").cloned().unwrap_or_else(|| ".".into());
+    let mut r = rng_from(seed);
+    let spec = rich_scheme(true, true, true, &[("set", Ty::Int), ("set", Ty::Bytes)]);
+    write_ndjson::<Value>(&format!("{out}/schemes.ndjson"), &[]);
+    write_ndjson::<Value>(&format!("{out}/ctxs.ndjson"), &[]);
+    let mut tw = BufWriter::new(File::create(format!("{out}/trace.ndjson")).unwrap());
+    let mut w = total::Worker::spawn();
+    let mut stats: HashMap<String, u64> = HashMap::new();
+    let mut inputs: Vec<(String, String)> = Vec::new();
+    if seed % 1000 == 0 || a.contains_key("stress") {
+        inputs.extend(total::stress_inputs(big));
+    }
+    while inputs.len() < n {
+        inputs.push(total::random_input(&mut r, &spec));
+    }
+    for (k, (class, text)) in inputs.iter().enumerate() {
+        let value = class.starts_with("value") || (k % 7 == 3);
+        let thread = k % 5 == 1;
+        let obs = match w.ask(text, value, thread) {
+            Some(o) => o,
+            None => {
+                let st = w.exit_status();
+                w = total::Worker::spawn();
+                json!({"out": format!("crash-{st}")})
+            }
+        };
+        *stats.entry(format!("{}.{}", class, obs["out"].as_str().unwrap_or("?"))).or_default() += 1;
+        // inputs are logged as bytes; huge inputs are logged by their line structure only
+        let bytes = text.as_bytes();
+        let ev = if bytes.len() <= 20000 {
+            json!({"ev": "total", "id": k, "class": class, "value": value, "thread2m": thread, "size": bytes.len(), "input": bytes, "obs": obs})
+        } else {
+            // positions of line feeds and the reported line's text are enough to check the error location
+            let lfs: Vec<usize> = bytes.iter().enumerate().filter(|(_, b)| **b == 10).map(|(i, _)| i + 1).collect();
+            let line = obs.get("line").and_then(|l| l.as_i64()).unwrap_or(-1);
+            let lt: Vec<u8> = if line >= 0 { text.split('\n').nth(line as usize).map(|s| s.as_bytes().to_vec()).unwrap_or_default() } else { vec![] };
+            json!({"ev": "total-big", "id": k, "class": class, "value": value, "thread2m": thread, "size": bytes.len(),
+                   "nlines": lfs.len() + 1, "actual_line": lt, "line_exists": line >= 0 && (line as usize) <= lfs.len(), "obs": obs})
+        };
+        serde_json::to_writer(&mut tw, &ev).unwrap();
+        tw.write_all(b"\n").unwrap();
+    }
+    tw.flush().unwrap();
+    println!("{}", serde_json::to_string(&json!({"events": inputs.len(), "stats": stats})).unwrap());
+}
+
 fn main() {
     let args: Vec<String> = std::env::args().collect();
     if args.len() < 2 {
@@ -1047,6 +1154,14 @@ fn main() {
             write_ndjson::<Value>(&format!("{out}/ctxs.ndjson"), &[]);
             write_ndjson(&format!("{out}/trace.ndjson"), &evs);
             println!("{}", serde_json::to_string(&json!({"events": evs.len()})).unwrap());
+            0
+        }
+        "total-worker" => {
+            total::worker_main();
+            0
+        }
+        "gen-total" => {
+            gen_total(&a);
             0
         }
         "gen-types" => {
